@@ -70,6 +70,8 @@ const (
 	PrModelDefinite
 	PrModelPending
 	PrModelUnknown
+	PrClockPastExpiry // clock moved into the round period after a pending expiration's
+	PrSteadyChecked // C14: values checked after the steady-clock phase
 	PrNoRaiseChecked // C03: RemainingCost() >= 0 checked in a single-writer run without a raising overwrite
 	PrFreshModelChecked // C15: the reference model decided the reads made after the epilogue's Clear
 	NumProbes
@@ -88,7 +90,7 @@ var ProbeNames = []string{
 	"metrics_checked", "empty_check_skipped", "empty_checked", "fresh_checked", "closed_probed",
 	"unguaranteed_collision", "deadline_exempt", "get_hit", "c05_clear_exempt", "sketch_fresh_checked",
 	"waiter_release_checked", "close_waiter_at_send",
-	"model_definite", "model_pending", "model_unknown", "no_raise_checked", "fresh_model_checked",
+	"model_definite", "model_pending", "model_unknown", "clock_past_expiry", "steady_checked", "no_raise_checked", "fresh_model_checked",
 }
 
 var curProbes [NumProbes]int
